@@ -27,6 +27,12 @@ TEXTS = {
         "text": "From the installed data only (static v-table pointers, slots-and-strides, dispatch_data) every (class, method, parameter) applicable pair must have a distinct cell inside dispatch_data; a bounds-checked restatement of the documented table walk must stay inside dispatch_data and end on a function of that method; then the real resolve path runs under AddressSanitizer.",
         "note": "dispatch data is one heap vector, so ASan sees out-of-bounds and stale reads",
     },
+    "C05": {
+        "technique": SIM + "id sets from loader-like families x grow/shrink/replace histories x seeded searches x exhausted search budgets (fault), pristine-twin differential",
+        "design_ref": "DESIGN.md 4 (C05)",
+        "text": "hash-sim drives publish_vptrs / hash_initialize directly with model classes (0-600 ids; random 64-bit, clustered pointers, small integers, high-bit-only, low-bit-only, strided) through histories of growing, shrinking and replaced sets, with a seeded search and, as fault, an attempt budget of 1-100: each step must either report exactly one hash_search_error with the number of attempts really made, or install parameters under which every registered id has its own index inside the vector holding its class's pointer (and the address of its static pointer when indirect) while the checked variant rejects ~200 unregistered ids per step (near misses, ids removed by the previous step, constants); the outcome must equal that of a pristine twin policy given the same ids, seed and budget. registry-sim repeats the lookup checks inside full worlds after load/unload/relocate histories.",
+        "note": "fault_enumeration: the fault kind (budget exhaustion) is enumerated over budgets {1,2,3,10,100} x seeds x histories, sampled, not exhaustive",
+    },
     "C06": {
         "technique": SIM + "static-initialisation orders (permutation differential + model)",
         "design_ref": "DESIGN.md 4 (C06)",
@@ -45,6 +51,12 @@ TEXTS = {
         "text": "One abstract graph is presented in many ways (complete lists, direct bases only, with/without self, duplicates, several records per class, any order); acceptance, dispatch and next must equal those of the canonical presentation of the same graph run in a pristine policy, and the C04 no-shared-cell scan must pass.",
         "note": "the model's base relation is the closure of the listed edges",
     },
+    "C09": {
+        "technique": SIM + "virtual_ptr lifetimes (make / copy / move / convert / use / drop) interleaved with updates that reallocate the dispatch data",
+        "design_ref": "DESIGN.md 4 (C09)",
+        "text": "Pointers are made by every route (base reference, exact static type, final, copy, move-convert; virtual_shared_ptr from const / non-const / temporary shared_ptr, converting, make_virtual_shared), held across 0-n updates of the same policy that grow or shrink the registry, copied, and used as arguments of pointer-taking methods; get / * / -> must give back the object, _vptr() the class's current v-table pointer, and the call must run what the model says a plain reference would. With an indirect policy pointers made before an update are used after it; otherwise only within their epoch.",
+        "note": "a direct virtual_ptr is never used after its policy's next update (the property allows it to dangle)",
+    },
     "C10": {
         "technique": SIM + "RTTI flavours of one abstract registry (std_rtti, integer ids, aliased ids with projection, deferred ids), repeated updates",
         "design_ref": "DESIGN.md 4 (C10)",
@@ -57,6 +69,12 @@ TEXTS = {
         "text": "After every event on one policy, everything published for each other policy (dispatch data, v-table pointer tables, hash parameters, control table, static v-table pointers, slots and strides, next cells), its catalogs, its handler and its held virtual_ptrs must be unchanged; each policy is also checked against its own model.",
         "note": "policies are distinct types built with basic_policy / rebind",
     },
+    "C15": {
+        "technique": SIM + "fault 'lost registration' injected at every place a class can occur x argument route, handler throws or returns (forked abort probe)",
+        "design_ref": "DESIGN.md 4 (C15)",
+        "text": "From a legal plan one class's records are withheld: as a listed base, a method parameter or a definition parameter (update must report unknown_class with that class's id and install nothing; after the registration arrives the next update is clean), or as the dynamic class of an argument at each virtual position through references, pointers, shared_ptr, virtual_ptr from a base reference, from the exact static type, copied, moved (the call or construction must report it before any table read or definition); final on another dynamic type must report a method table error; with a returning handler a forked child must die by SIGABRT after exactly one report.",
+        "note": "checked policies only (debug-shaped with the simulator's ids, stock debug with std_rtti, checked+indirect, deferred); final on an unregistered exact type is outside the property (final skips the look-up by design)",
+    },
     "C17": {
         "technique": SIM + "registries x abstract flags, report compared with an enumeration by the model",
         "design_ref": "DESIGN.md 4 (C17)",
@@ -67,14 +85,11 @@ TEXTS = {
         "technique": SIM + "constructor / destructor histories of registration objects vs a vector model",
         "design_ref": "DESIGN.md 4 (C18)",
         "text": "After every load or unload the three kinds of catalog (classes, methods, each method's definitions) must enumerate exactly the live registrations, once each, in registration order, with matching size() and empty(); re-registration after removal is part of every history.",
-        "note": "registry-sim part; list-sim drives static_list directly",
+        "note": "list-sim drives detail::static_list directly: every sequence of <= 5 operations over 3 nodes exhaustively, then random histories of up to 120 operations over 1-6 nodes",
     },
 }
 
 NOT_APPLICABLE = {
-    "C05": "check not built yet (hash-sim planned, DESIGN.md 4)",
-    "C09": "check not built yet (virtual_ptr lifetimes planned, DESIGN.md 4)",
-    "C15": "check not built yet (lost-registration fault planned, DESIGN.md 4)",
     "C16": "check not built yet (sched-sim under TSan planned, DESIGN.md 4)",
     "C11": "quantifies over template instantiations (programs): fixed at compile time, no schedule, fault or history to simulate",
     "C12": "pure text function of installed arrays plus programs compiled with that text; nothing for a simulator to vary",
